@@ -962,6 +962,33 @@ fn sweep_keys(rec: &mut Rec, strs: &[String]) {
             });
         }
     }
+    // equality between keys, and between the values that hold keys, of every pair of kinds and lengths
+    {
+        let mut keys: Vec<(String, HMACKey)> = Vec::new();
+        for pw in ["", "p", "a-password-of-ordinary-length", &"k".repeat(100)] {
+            if let Ok(k) = HMACKey::new_short_term(pw) {
+                keys.push((format!("st/{}", pw.len()), k));
+            }
+        }
+        for (an, alg) in [("md5", &md5), ("sha256", &sha)] {
+            if let Ok(k) = HMACKey::new_long_term("user", "realm", "pass", alg) {
+                keys.push((format!("lt/{}", an), k));
+            }
+        }
+        for (na, a) in &keys {
+            for (nb, b) in &keys {
+                let arg = format!("{} == {}", na, nb);
+                rec.val("HMACKey::eq", &arg, || a == b);
+                rec.val("MessageIntegrity::eq", &arg, || MessageIntegrity::new(a.clone()) == MessageIntegrity::new(b.clone()));
+                rec.val("MessageIntegritySha256::eq", &arg, || {
+                    MessageIntegritySha256::new(a.clone()) == MessageIntegritySha256::new(b.clone())
+                });
+                rec.val("DecoderContext::eq", &arg, || {
+                    DecoderContextBuilder::default().with_key(a.clone()).build() == DecoderContextBuilder::default().with_key(b.clone()).build()
+                });
+            }
+        }
+    }
     // UserName / Realm values as arguments (AsRef<str>)
     if let (Ok(u), Ok(r)) = (UserName::new("user"), Realm::new("realm")) {
         rec.res_e("HMACKey::new_long_term", "md5 UserName,Realm,\"pass\"", || {
